@@ -7,6 +7,14 @@
 // the white-space collapsed source text of the flow; the DrawText calls of each page are
 // compared with the TextBoxes of that page; the same document on one 10 000 px page is the
 // differential reference.
+//
+// Second generation of the space (same lattice): inline structures as block kinds (a span glued
+// to a word on both sides, a footnote call), deviations on the first inner element of a block
+// (float / absolute / relative / opacity / inline-block / block on a <span>, <p>, <li> or cell),
+// pseudo-element rules (::first-letter, floated ::first-letter, ::first-line, ::before, ::after,
+// counter(pages) in the flow, which forces several pagination rounds) and a flow of four blocks
+// under the break × out-of-flow sub-menu. Generated text is rendered text of its element's flow;
+// a floated first letter and a footnote body are flows of their own.
 package c02
 
 import (
@@ -257,7 +265,8 @@ func (c *check) Init(tier string, seed int64) engine.Space {
 		Assumptions: []string{
 			"all block sizes are automatic; explicit heights, RTL and hyphenation are outside the alphabet",
 			"text is made of distinct two-letter ASCII words in the Ahem font (10px/1): every letter occurs once in a document",
-			"order is asserted inside a flow only (main flow; each float, absolutely positioned box, running/fixed element and table cell is a flow of its own)",
+			"order is asserted inside a flow only (main flow; each float, absolutely positioned box, running/fixed element, table cell, footnote body and floated ::first-letter is a flow of its own)",
+			"a footnote called from a running element is not compared (page-margin boxes have no footnote area: the specifications leave its place open)",
 			"list markers, footnote calls and footnote markers are counters: they take part in the draw-call clauses only; ::before/::after text is rendered text of its element's flow (a counter(pages) value is compared as a number of any value)",
 		},
 	}
